@@ -27,7 +27,14 @@ CFG = {
     },
     "n": {"quick": 1500, "thorough": 60000},
     "exhaustive": {"quick": False, "thorough": True},
-    "rule": "corpus (17 hand-built + 25 sampled scenes + 35 wide-literal scenes); number tokens outside the i64 range (oracle Spec/FramingWide.lean + Spec/NumLit.lean: such a token is a Real "
+    "rule": "corpus (17 hand-built + 25 sampled scenes + 35 wide-literal scenes + 30 cases on restricted views); "
+            "EVERY case below is run twice: on a plain ParseBuffer and (case tag `vw`) on a RESTRICTED VIEW whose window is the case's buffer inside a larger allocation - bytes in front of the window "
+            "1 / 7 / 11 / 1000 (also 0, 2, 3, 5, 13, 64; a header and complete objects, or random bytes) x chain of restrictions {RestrictView, RestrictViewFrom, From then View, View then View with junk "
+            "on both sides of the inner window, View then From, View starting at 0 then From, View-From-View} x bytes behind the window that CONTINUE the scene {filler up to a declared length that runs beyond the "
+            "window followed by `endstream endobj`, the cut-off rest of a truncated scene, more endstream/endobj text and whole objects, nothing} (periods 16 x 7 x 5, pairwise coprime: all 560 combinations "
+            "within any 560 consecutive cases); expectation = the expectation on the window's bytes alone (offsets, spans, cursors and StreamContentT.start are cursors of the view the parser was given; nothing is "
+            "re-based to the allocation, nothing outside the window is read); plus cut windows: 30 valid one-stream scenes with the view ending at every byte position inside the object, the rest of the object lying "
+            "behind the view (thorough: every position; quick: every 4th and the last 20); number tokens outside the i64 range (oracle Spec/FramingWide.lean + Spec/NumLit.lean: such a token is a Real "
             "or, beyond i128, no object - as a declared length it is invalid, never reduced): per payload 48 literals k*2^64+t and -(k*2^64-t) whose low 64 bits are the payload length "
             "or a neighbour (k in 1,2,3,2^31,2^62,2^63-1,2^64,2^64+1; t in len,len+1,len-1) + 27 boundary literals (+-(2^63-1), +-2^63, -2^63-1, 2^63+len, +-(2^64-1), +-2^64, +-(2^32+len), +-10^19, +-10^30, "
             "+-(2^127-1), +-2^127, 2^128+len, 10^39) x {direct (plain / `+` / leading zeros / `-`), value of the object referenced by /Length (defined before), forward reference then re-parse}, "
@@ -40,9 +47,11 @@ CFG = {
             "4x4 extra dictionary entries in 3 orders, 9 whitespace/comment spellings per gap, defective endstream/endobj keywords; plain objects as length targets; "
             "identifier collisions), each followed by a one-byte mutation / deletion / insertion / truncation of its text (raw case). "
             "non-trivial = a stream whose payload contains endstream/endobj or begins/ends with CR/LF, or whose declared length differs from the payload length, "
-            "or is negative, by reference, missing or not an integer, or any object with a number written outside the i64 range; raw: the mutated text still contains `stream` (distinct by case hash)",
+            "or is negative, by reference, missing or not an integer, or any object with a number written outside the i64 range; raw: the mutated text still contains `stream`; a case on a view: the case is non-trivial and the window is a proper part of the allocation (distinct by case hash)",
     "trusted_base": COMMON_TB + [
-        "modelled, not verified: ParseBuffer primitives (peek/exact/check_prefix/extract/set_cursor_unsafe) as list functions on a whole buffer (views: C17); "
+        "modelled, not verified: ParseBuffer primitives (peek/exact/check_prefix/extract/set_cursor_unsafe) as list functions on a whole buffer; a restricted view is modelled by its window "
+        "(the model of a `vw` case is the model of the case on the window's bytes, after checking that the chain of RestrictView / RestrictViewFrom steps selects that window by the bounds rules of transforms.rs; "
+        "that ParseBuffer's primitives on a view behave like those of a buffer holding the window is C17's subject) - the correspondence run itself exercises the real parser on real views; "
         "BTreeMap<ObjectId,_> insert/get as a sorted association list with the lexicographic order of (usize,usize); Rc sharing ignored",
         "reused, proved elsewhere: token-parser and object-parser models (Model/Prim, Model/Obj; C15 LocOK, C16 parseObjB_good)",
         "64-bit usize: i64 -> usize conversion succeeds iff the value is >= 0",
@@ -51,7 +60,7 @@ CFG = {
         "Framing.expectScene agree (class `oracle-disagreement`)",
     ],
     "assumptions": [
-        "the buffer is an unrestricted ParseBuffer and the cursor is inside it; the context satisfies cur_depth <= max_depth and its map is a BTreeMap (sorted)",
+        "theorems: the buffer is a byte list with the cursor inside it (an unrestricted ParseBuffer, or by C17 the window of a view); correspondence: plain buffers and restricted views of every shape listed in the rule; the context satisfies cur_depth <= max_depth and its map is a BTreeMap (sorted)",
         "eol_after_stream_content is false in every context the crate can build (private field, no setter); theorems are proved for both values, the correspondence runs with false",
     ],
 }
@@ -73,5 +82,6 @@ LEVEL = {
             "and indirect_length_error (an unresolved length is the result of the whole call, whatever follows the head). The white space "
             "between `endstream` and `endobj` has a declarative grammar (Gap / WsRun: white-space bytes and LF-terminated comments) and the token-level WhitespaceEOL is proved to accept exactly it. "
             "The model is tied to parse_pdf_indirect_obj by a correspondence run "
-            "(value, start/size/content, spans, cursor, error kind, depth delta, context look-ups) on systematic and random scenes with keyword-laden payloads.",
+            "(value, start/size/content, spans, cursor, error kind, depth delta, context look-ups) on systematic and random scenes with keyword-laden payloads, each run on a plain buffer and again on a restricted view "
+            "(RestrictView / RestrictViewFrom / views of views; junk in front of the window, scene-continuing text behind it), where the result must be that of the window's bytes alone.",
 }
